@@ -18,7 +18,10 @@
 //!   12 select!{ biased; x = receive from ch => 0 (x dropped), sleep(d) => 1 }, f odd: the receive branch comes first
 //! A task spawned by a message (start > 0) that sends at once is a message event whose handler sends on a channel.
 //!
-//! Output := (len log.. fin)*  ok  end_time
+//! Output := (len log.. fin)*  ok  end_time  snapshot*
+//!   snapshot := t m #slots (deadline #entries)* flag next_wakeup: what the verification hook
+//!   ModuleRef::verif_timer_snapshot reports of each module's timer driver, sampled between events (after
+//!   start-up and after every dispatched event; a module that does not exist is reported as an empty driver)
 //!   log records: sleep/sleep_until/reset/drop/log -> now; timeout -> now ok(1)/elapsed(0);
 //!   select -> now branch (2 = unbiased tie); tick -> now tick_instant; hand-over -> now;
 //!   receive+await -> instant of the receive, instant the received Sleep completed
@@ -410,7 +413,32 @@ fn run_line(nums: &[u64]) -> Vec<u64> {
             rt.handle_message_on(refs[t.module as usize].clone(), msg, SimTime::from_duration(ns(t.start)));
         }
     }
-    let res = rt.run();
+    // run event by event and sample every module's timer driver in between
+    let mut snaps: Vec<u64> = Vec::new();
+    let mut sample = |refs: &Vec<ModuleRef>| {
+        let t = now();
+        for m in 0..2usize {
+            let (slots, nw) = match refs.get(m).and_then(|r| r.verif_timer_snapshot()) {
+                Some(x) => x,
+                None => (Vec::new(), None),
+            };
+            snaps.extend([t, m as u64, slots.len() as u64]);
+            for (d, n) in slots {
+                snaps.extend([d.as_nanos() as u64, n as u64]);
+            }
+            match nw {
+                Some(x) => snaps.extend([1, x.as_nanos() as u64]),
+                None => snaps.extend([0, 0]),
+            }
+        }
+    };
+    rt.start();
+    sample(&refs);
+    while rt.num_events_remaining() > 0 {
+        rt.dispatch_n_events(1);
+        sample(&refs);
+    }
+    let res = rt.finish();
 
     let logs = LOGS.lock().unwrap();
     let fin = FIN.lock().unwrap();
@@ -422,5 +450,6 @@ fn run_line(nums: &[u64]) -> Vec<u64> {
     }
     out.push(res.is_ok() as u64);
     out.push(END.load(SeqCst));
+    out.extend(snaps);
     out
 }
